@@ -20,6 +20,7 @@ import (
 	"math/rand"
 	"os"
 	"strings"
+	"sync/atomic"
 	"time"
 	"unicode"
 	"unicode/utf8"
@@ -309,9 +310,43 @@ const hm = uint64(1)<<61 - 1
 
 func mix(h, x uint64) uint64 { return (h*1000003 + x + 1) & hm }
 
+var ckNontrivial int
+
+// watchdog for the checksum mode: the case counter must keep moving
+var (
+	ckSeq   uint64
+	ckInput atomic.Value
+)
+
+func ckWatchdog() {
+	last, since := uint64(0), time.Now()
+	for {
+		time.Sleep(500 * time.Millisecond)
+		cur := atomic.LoadUint64(&ckSeq)
+		if cur != last {
+			last, since = cur, time.Now()
+			continue
+		}
+		if cur > 0 && time.Since(since) > 5*time.Second {
+			in, _ := ckInput.Load().(string)
+			json.NewEncoder(os.Stderr).Encode(map[string]string{"hang": hex.EncodeToString([]byte(in))})
+			os.Exit(3)
+		}
+	}
+}
+
 func hashCase(h uint64, input string) uint64 {
+	ckInput.Store(input)
+	atomic.AddUint64(&ckSeq, 1)
 	h = mix(h, 7)
+	n := 0
+	defer func() {
+		if n >= 2 {
+			ckNontrivial++
+		}
+	}()
 	for t := range lexer.New(input, 0) {
+		n++
 		h = mix(h, uint64(t.Type)+1000)
 		for i := 0; i < len(t.Text); i++ {
 			h = mix(h, uint64(t.Text[i]))
@@ -334,6 +369,7 @@ func foldStrings(n int, prefix string, h uint64, count *int) uint64 {
 }
 
 func checksums(spec string) {
+	go ckWatchdog()
 	out := json.NewEncoder(os.Stdout)
 	for _, item := range strings.Split(spec, ",") {
 		parts := strings.SplitN(item, ":", 2)
@@ -346,8 +382,9 @@ func checksums(spec string) {
 			d = d*10 + int(c-'0')
 		}
 		n := 0
+		ckNontrivial = 0
 		h := foldStrings(d, string(p), 0, &n)
-		out.Encode(map[string]interface{}{"prefix": parts[0], "depth": d, "hash": fmt.Sprint(h), "count": n})
+		out.Encode(map[string]interface{}{"prefix": parts[0], "depth": d, "hash": fmt.Sprint(h), "count": n, "nontrivial": ckNontrivial})
 	}
 }
 
@@ -361,6 +398,9 @@ var corpus = []string{
 	"\"x\"^^type:", "\"x\"^^type:foo", "\"x\"^^type:INT64", "\"x\"^^TYPE:int64", "\"1\"^^type:İnt64", "\"1\"^^type:int64x", "\"1\"^^type:int64é",
 	"ſelect", "K", "asK", "aſ", "ſ", "deſc", "é", "?é", "\xc3", "\xff\xfe", "a\xc3(",
 	"select ?x", "select ?x", "١", "before ١", "{}();.,<>=", "select.", "group by", "GROUPBY",
+	// accept() compares lower-cased runes: an upper-case marker is consumed once strings.Index found a later exact one
+	"\"x\"^^TYPE:int64 \"y\"^^type:text", "\"x\"^^Type:TEXT \"p\"@[] \"z\"^^type:bool", "\"p\"@[] \"x\"^^TyPe:bool \"y\"^^type:bool",
+	"\"x\"^^tYPE:İnt64 \"y\"^^type:text", "\"a\"^^TYPE:blob;\"b\"^^type:blob", "\"a\"^^typE:foo \"b\"^^type:text",
 	"\"p\"@[] \"x\"^^type:text", "\"x\"^^type:text \"p\"@[]", "\"x\" \"p\"@[]", "\"@[\"^^type:text", "\"@[x\"@[]", "\"^^type:\"@[]",
 }
 
